@@ -181,9 +181,75 @@ func apiProbes() []probe {
 	}
 }
 
+// memoShapeProbes: Memoize'd providers whose parameter TYPES cannot (always) be map keys, alone and mixed with parameters
+// that can, in every order, in the run set (invoke arguments) and in the static set (init arguments).  Bind may refuse
+// them or the provider may be called each time; nothing may panic.
+func memoShapeProbes() []probe {
+	bad := []reflect.Type{
+		reflect.TypeOf([1][]int{}), reflect.TypeOf(struct{ F []int }{}), reflect.TypeOf([2]map[string]int{}),
+		reflect.TypeOf(struct{ A [1][]int }{}), reflect.TypeOf(struct{ A [1]func() }{}), reflect.TypeOf([]int{}),
+		reflect.TypeOf([1]struct{ X any }{}), reflect.TypeOf(struct{ x any }{}),
+	}
+	good := []reflect.Type{
+		reflect.TypeOf([2]int{}), reflect.TypeOf(struct{ A int }{}), reflect.TypeOf(""), reflect.TypeOf([1]struct{ A int }{}),
+	}
+	t3 := reflect.TypeOf(T3{})
+	mk := func(name string, ins []reflect.Type, static bool) probe {
+		return probe{name, func() error {
+			fn := reflect.MakeFunc(reflect.FuncOf(ins, []reflect.Type{t3}, false), func([]reflect.Value) []reflect.Value {
+				return []reflect.Value{reflect.ValueOf(T3{Tag: 1})}
+			}).Interface()
+			args := make([]reflect.Value, len(ins))
+			for i, t := range ins {
+				args[i] = reflect.New(t).Elem()
+				if t.Kind() == reflect.Array && t.Elem().Kind() == reflect.Struct && t.Elem().NumField() == 1 && t.Elem().Field(0).Type.Kind() == reflect.Interface {
+					args[i].Index(0).Field(0).Set(reflect.ValueOf([]int{1}))
+				}
+			}
+			var annotated any = nject.Memoize(fn)
+			if static {
+				annotated = nject.MustCache(annotated)
+			}
+			c := nject.Sequence("ms", annotated, func(v T3) T3 { return v })
+			if static {
+				inv := reflect.New(reflect.FuncOf(nil, []reflect.Type{t3}, false))
+				ini := reflect.New(reflect.FuncOf(ins, nil, false))
+				if err := c.Bind(inv.Interface(), ini.Interface()); err != nil {
+					return err
+				}
+				ini.Elem().Call(args)
+				inv.Elem().Call(nil)
+				inv.Elem().Call(nil)
+				return nil
+			}
+			inv := reflect.New(reflect.FuncOf(ins, []reflect.Type{t3}, false))
+			if err := c.Bind(inv.Interface(), nil); err != nil {
+				return err
+			}
+			inv.Elem().Call(args)
+			inv.Elem().Call(args)
+			return nil
+		}}
+	}
+	var out []probe
+	for bi, b := range bad {
+		for gi, g := range good {
+			for oi, ins := range [][]reflect.Type{{b}, {b, g}, {g, b}, {g, b, g}} {
+				if oi == 0 && gi > 0 {
+					continue
+				}
+				for _, static := range []bool{false, true} {
+					out = append(out, mk(fmt.Sprintf("Memoize shape bad%d good%d order%d static=%v", bi, gi, oi, static), ins, static))
+				}
+			}
+		}
+	}
+	return out
+}
+
 func runProbes() []string {
 	var out []string
-	for _, p := range apiProbes() {
+	for _, p := range append(apiProbes(), memoShapeProbes()...) {
 		var err error
 		s := guarded(10*time.Second, func() { err = p.f() })
 		switch {
